@@ -178,6 +178,8 @@ class PlanSuite:
             # fill the stock column with exactly v_stock: the last transfer empties it
             lab = [dict(s) for s in ex["labware"]]
             st = lab[ex["stock"]]
+            if Fraction(st["max"]) < Fraction(float(plan.v_stock)) or Fraction(float(plan.v_stock)) <= Fraction(st["min"]):
+                st["max"] = frac_str(Fraction(float(plan.v_stock)) + 1)
             if st["cols"] == 1:
                 st["init"] = {"shape": "scalar", "v": frac_str(Fraction(float(plan.v_stock)))}
             else:
